@@ -19,6 +19,23 @@ def main():
     if job.get("prior_draws"):
         np.random.seed(job.get("prior_seed", 123))
         np.random.rand(job["prior_draws"])
+    if job["kind"] == "direct":
+        # formulations constructed directly from a hand-built VRPTW; the heuristic is called by the caller (no MIRP getter in between)
+        from harness.vh import form_util as FU
+        for form in job.get("forms", ["arc", "path", "seq"]):
+            case = dict(job["cases"][form])
+            try:
+                o, _ = FU.build_form(case, with_heur=False)
+                try:
+                    o.make_feasible(float(job["high"]))
+                    tag = "ok"
+                except Exception as e:  # noqa
+                    tag = "heur-raise:" + type(e).__name__
+                out[form] = tag + ":" + light_state(o, form)
+            except Exception as e:  # noqa
+                out[form] = "raise:" + type(e).__name__
+        print("FP " + json.dumps(out, sort_keys=True))
+        return
     if job["kind"] == "g1":
         from vrpqubo.examples.mirp_g1 import get_mirp
         m = get_mirp(job["horizon"])
